@@ -159,7 +159,7 @@ def handleGlue (id : Nat) (hdr body : List Sexp) : String :=
     | _, _, _ => verdict id (some "unparsable glue header") "ok" "ok"
   | _, _ => verdict id (some "unparsable glue case") "ok" "ok"
 
-/-- a chain whose exceptions reject attribute assignment (`glue-reject`; every level awaits by yield) -/
+/-- a chain whose exceptions reject attribute assignment (`glue-reject`) -/
 def handleGlueReject (id : Nat) (hdr body : List Sexp) : String :=
   match hdr, body.mapM event? with
   | [b, r, ls], some impl =>
@@ -168,12 +168,7 @@ def handleGlueReject (id : Nat) (hdr body : List Sexp) : String :=
       if !rejectDomain bottom levels then verdict id (some "glue-reject case outside rejectDomain") "ok" "ok"
       else
         let model := runTopC .rejects rule bottom levels
-        let corr := firstDiffE model impl
-        -- SPECM: the model violates the reference exactly where the recorded finding says; "ok" here means "the
-        -- model's observation is the reference one or carries the recorded name"
-        let cm := rejectClause bottom levels model
-        let specm := if cm == "exception-rejecting-attributes-not-delivered" then "ok" else cm
-        verdict id corr (rejectClause bottom levels impl) specm
+        verdict id (firstDiffE model impl) (rejectClause rule bottom levels impl) (rejectClause rule bottom levels model)
     | _, _, _ => verdict id (some "unparsable glue-reject header") "ok" "ok"
   | _, _ => verdict id (some "unparsable glue-reject case") "ok" "ok"
 
